@@ -286,6 +286,21 @@ class MethodBuilder:
             )
             annotations[attr] = attr_spec.type
             defaults[attr] = MISSING if attr_spec.is_masked else attr_spec.default
+            # An undecorated class between `spec_cls` and the attribute's owner
+            # may re-default the attribute (honoured at run time by
+            # `Attr.lookup_default_value`): advertise the default in force.
+            for klass in spec_cls.__mro__:
+                if klass is attr_spec.owner:
+                    break
+                if attr in klass.__dict__:
+                    override = klass.__dict__[attr]
+                    defaults[attr] = (
+                        MISSING
+                        if inspect.isfunction(override)
+                        or inspect.isdatadescriptor(override)
+                        else override
+                    )
+                    break
 
         self.with_args(
             args=args,
